@@ -1,0 +1,18 @@
+//go:build verif
+
+package quic
+
+// VerifSchedHook, when set by the verification harness in /verif, is called at the schedule
+// points named below. Inside a testing/synctest bubble the harness lets virtual time pass there,
+// which runs every other runnable goroutine first and so widens windows that otherwise depend on
+// a preemption within a few instructions. It must be set before any connection is started.
+//
+// Schedule points: "routing" (packetHandlerMap.Remove, packetHandlerMap.ReplaceWithClosed: a
+// connection is about to change the transport's routing table).
+var VerifSchedHook func(point string)
+
+func verifSchedPoint(point string) {
+	if h := VerifSchedHook; h != nil {
+		h(point)
+	}
+}
